@@ -28,7 +28,7 @@ Inductive op :=
 | OGetFlags (k : key)
 | OLen | OSize | ODirty
 | OIter (rev : bool) (lo hi : key)                  (* Iter(lo,hi) / IterReverse(hi,lo) *)
-| OIterFlags (lo hi : key)                          (* IterWithFlags *)
+| OIterFlags (rev : bool) (lo hi : key)             (* IterWithFlags(lo,hi) / IterReverseWithFlags(hi) (lo = nil) *)
 | OSnapGet (k : key)                                (* SnapshotGetter().Get / GetSnapshot().Get *)
 | OSnapIter (rev : bool) (lo hi : key)              (* SnapshotIter / SnapshotIterReverse / batched *)
 | OInspect (h : nat)                                (* InspectStage *)
